@@ -220,6 +220,24 @@ def sz2(F, R):
                 n += 1
                 R.ok("SZ2", imp[0]["span"], "%s for %s is derived" % (tr, adt))
     R.floor("SZ2", "derived serde impls", n + sum(1 for v in R.violations if v["rule"] == "SZ2"), 10)
+    # a derived impl that hands a field to a hand-written function (`#[serde(with / serialize_with / deserialize_with = "..")]`): that
+    # field is no longer written and read by generated code
+    seen = set()
+    hand_written = {rb["path"] for rb in F.raw["bodies"] if not rb.get("derived") and not rb.get("from_expansion") and rb.get("kind") != "Closure"}
+    for rb in F.raw["bodies"]:          # the bodies as compiled, before helpers are inlined
+        if not (rb.get("derived") or rb.get("from_expansion")) or "_serde" not in rb["path"]:
+            continue
+        for bi, blk in enumerate(rb["blocks"]):
+            t = blk["term"]
+            if t is None or t["k"] != "call" or not t["callee"].get("local"):
+                continue
+            key = t["callee"].get("path", "")
+            if key not in hand_written or key in seen:
+                continue
+            seen.add(key)
+            R.bad("SZ2", "SZ2/custom-field-codec/%s" % short_path(key), "%s:%s" % (rb.get("file", "?"), t.get("line", "?")),
+                  "a derived (de)serialisation impl calls the hand-written %s (`#[serde(with / serialize_with / deserialize_with)]`): the "
+                  "field it handles is not written and read by generated code from the same declaration" % short_path(key))
 
 
 def fallible_events(raw, krate=None, pathprefix=None, names=None):
